@@ -20,10 +20,24 @@ def gen_tree(rng, depth, public_only=False):
         if depth > 0 and r < 0.3:
             d[k] = gen_tree(rng, depth - 1, public_only)
         elif depth > 0 and r < 0.45:
-            d[k] = [gen_tree(rng, depth - 1, public_only) if rng.random() < 0.5 else rng.choice(LEAVES) for _ in range(rng.randint(0, 3))]
+            d[k] = gen_list(rng, depth - 1, public_only)
         else:
             d[k] = rng.choice(LEAVES)
     return d
+
+
+def gen_list(rng, depth, public_only):
+    """elements: containers, leaves and (a quarter of the time) lists again: lists directly inside lists"""
+    out = []
+    for _ in range(rng.randint(0, 3)):
+        r = rng.random()
+        if r < 0.45:
+            out.append(gen_tree(rng, depth, public_only))
+        elif r < 0.7 and depth >= 0:
+            out.append(gen_list(rng, depth - 1, public_only) if depth > -2 else [])
+        else:
+            out.append(rng.choice(LEAVES))
+    return out
 
 
 def public(v):
